@@ -6,6 +6,22 @@ HOOK_COMMITS = ["3713a50"]
 
 # id -> (technique, level text, level note, design ref)
 CHECKS = {
+ "C01": ("stateless model checking of the real code: every interleaving of 2-3 participants at filesystem-call granularity within a preemption bound (unbounded with sleep sets for selected pairs), with a content invariant evaluated after every mutating call",
+         "33 (quick) curated programs over plain, sharded and stacked front-ends, multi-chunk values, own and shared handles, with and without maintenance on every write: all schedules with <= 2 preemptions (thorough: more programs, bound 3, unbounded sleep-set search for the classic pairs). Every handle returned is read to the end and must be exactly one value written for that key; after every rename/link/write/copy/truncate every key-named file visible in a cache directory must hold a complete value for its name.",
+         "Threads stand in for processes; whole system calls are atomic steps (sequential consistency); bounds as stated. Trusted: fsx shim scheduler (determinism self-test and replay-before-report on every run).",
+         "DESIGN.md §4 C01"),
+ "C04": ("stateless model checking (sleep-set DFS unbounded for all operation pairs, iterative preemption bounding for larger programs) with a Wing-Gong linearizability check of every execution's call/return history against a register-with-put specification",
+         "All pairs of {set, put, get, touch, ensure} x key absent/present without any bound (ensure||ensure bounded at 3 preemptions in quick, unbounded in thorough), curated 2-3 participant x 2-3 operation programs at bound 2 (thorough: every 2 x <=2-op program and 3 x 1-op triple at bound 2, curated at bound 3).",
+         "ensure is checked as its documented sub-operations. Trusted: scheduler, dependence relation used by sleep sets (over-approximated from call footprints).",
+         "DESIGN.md §4 C04"),
+ "C05": ("stateless model checking with a deleting adversary: all interleavings within a preemption bound of programs where every write maintains and directories may be missing",
+         "27 (quick) programs on plain, sharded (missing shard directories) and stacked front-ends: two maintainers over crowded directories, maintenance vs lookups/touches, an outsider unlinking published entries at any call boundary, everything starting from a non-existent cache directory; every operation must return Ok, no panic, no deadlock.",
+         "Bound 2 (thorough 3). The adversary deletes published entries only.",
+         "DESIGN.md §4 C05"),
+ "C06": ("stateless model checking: all schedules within the preemption bound contain every solo run of a participant against frozen peers; step-bound, lock, lock-file, retry and deadlock monitors on each",
+         "C05's programs plus C04's curated ones: own filesystem steps per operation <= 120 + 10 x entries listed, no flock/lockf/fcntl lock, no exclusive create inside a cache directory outside .kismet_temp, at most two publication attempts per write, no deadlock, no operation exceeding the 2000-step horizon.",
+         "A frozen peer = a participant never scheduled again before the observed operation returns (covered for every prefix with <= bound-1 preemptions). Step constants frozen in the harness.",
+         "DESIGN.md §4 C06"),
  "C02": ("exhaustive crash-point enumeration: a forked copy of the process _exits instead of executing call k, for every k of every scenario, followed by a fresh-handle recovery suite",
          "246 scenarios (operation x pre-state x front-end) x every intercepted call boundary (~6.7k crash states; thorough adds a second crash at every call of the recovering process): on the surviving tree every key-named file is a complete read-only value for its key, debris is confined to .kismet_temp, maintenance by a fresh handle keeps young temp files and reclaims old ones, and get/touch/put/set/ensure through a fresh handle obey register semantics.",
          "Process death, not power loss (kernel state intact). Trusted: shim (the death is injected in the interposed call), snapshot code.",
